@@ -25,6 +25,15 @@ func (e *Engine) runLemmas(prop string) {
 			}
 		}
 		name := "lemma." + l.Name
+		// known findings on a lemma: it is re-proved under the recorded guard
+		for _, k := range e.known {
+			if k.covers(name) && k.guardE != nil {
+				if q, ok := l.E.(*Quant); ok && q.Forall {
+					l = &Axiom{Uses: l.Uses, HasUses: l.HasUses, Measure: l.Measure, Private: l.Private, Props: l.Props, Name: l.Name, Text: l.Text + "   [under known-finding guard: " + k.Guard + "]", Pkg: l.Pkg,
+						E: &Quant{Forall: true, Vars: q.Vars, Triggers: q.Triggers, Body: &Binary{"==>", k.guardE, q.Body}}}
+				}
+			}
+		}
 		fc := &fnCtx{e: e, key: name, regionSort: map[string]string{}, closures: map[string]*closureInfo{}}
 		st := &State{env: map[ssa.Value]Val{}, names: map[string]Val{}, heap: map[string]string{}, loopVar: map[*ssa.BasicBlock]string{}, now: "0"}
 		sc := &specCtx{fc: fc, st: st, heap: st.heap, now: "0", vars: map[string]Val{}, params: map[string]Val{}, pkg: l.Pkg}
